@@ -423,6 +423,39 @@ def unresolved_guard(ctx, results):
     return None
 
 
+def run_rules(ctx, rules):
+    """Run every rule.  A rule that cannot analyse what it is about (AnalysisError, or a crash of the checker) does not decide; the
+    others still do.  Returns (results, error): error is None when every rule decided, or when some rule produced a finding on
+    resolved code -- a verdict stands whatever another rule could not read, and the undecided rules are noted on the results; it is the
+    first reason when nothing was found and some rule could not decide (the run is then not a pass)."""
+    results, errors = [], []
+    for rule in rules:
+        try:
+            res = rule(ctx)
+        except AnalysisError as e:
+            errors.append(str(e))
+            continue
+        except Exception as e:  # a bug in the checker must never look like a verdict
+            errors.append("internal error: %s\n%s" % (e, traceback.format_exc()))
+            continue
+        results.extend([res] if isinstance(res, RuleResult) else res)
+    g = unresolved_guard(ctx, results)
+    if g:
+        # every finding of the run goes through code the analysis could not resolve: none of them is a verdict
+        for r in results:
+            for f in r.findings:
+                r.notes.append("set aside (not a verdict): %s %s" % (f.rule, f.construct))
+            r.findings = []
+        errors.insert(0, g)
+    if errors and any(r.findings for r in results):
+        for r in results:
+            if r.findings:
+                r.notes.append("another rule of this run could not decide: %s" % errors[0].splitlines()[0][:200])
+                break
+        return results, None
+    return results, (errors[0] if errors else None)
+
+
 # ----------------------------------------------------------------------
 def load_known():
     if not os.path.exists(KNOWN_FINDINGS):
@@ -443,11 +476,9 @@ def run_check(prop_id: str, rules, tier: str, level: str, explanation: str, trus
     ctx = None
     try:
         ctx = Ctx(tier=tier)
-        for rule in rules:
-            res = rule(ctx)
-            if isinstance(res, RuleResult):
-                res = [res]
-            results.extend(res)
+        results, err = run_rules(ctx, rules)
+        if err:
+            error = "ANALYSIS-ERROR property=%s %s" % (prop_id, err)
     except AnalysisError as e:
         error = "ANALYSIS-ERROR property=%s %s" % (prop_id, e)
     except Exception as e:  # a bug in the checker must never look like a verdict
@@ -477,10 +508,6 @@ def run_check(prop_id: str, rules, tier: str, level: str, explanation: str, trus
         print("replay: rule %s on %s -> %s" % (replay_key[0], replay_key[1],
               "still reported" if any(r.findings for r in results) else "no longer reported on this tree"))
 
-    if error is None and ctx is not None:
-        g = unresolved_guard(ctx, results)
-        if g:
-            error = "ANALYSIS-ERROR property=%s %s" % (prop_id, g)
     known = load_known()
     known_keys = {(k["property"], k["rule"], k["construct"]): k for k in known.get("known", [])}
     violations = []
